@@ -597,8 +597,11 @@ def lu_all_shapes(rep: Report):
                 return setup(I, ctx)
             common = ["shapes", "PA_equals_LU_entrywise", "U_is_upper_with_rows_UF", "IP_is_injective_into_0_m", "stored_upper_entries_are_UF", "stored_lower_entries_are_MF", "hypotheses_consistent"]
             cl = (["returns_triple", "L_is_unit_lower_with_the_stored_multipliers", "P_has_its_one_at_IP"] if three else ["returns_pair", "row_IP_i_of_returned_L_is_row_i_of_L"]) + common
+            def model_replay(inputs):
+                A4 = inputs.get("A")
+                return None if A4 is None else _check_lu(A4)
             run_case(rep, P, QN, "all_shapes.three_output" if three else "all_shapes.two_output", setup_m, post, lib=lib, contracts=contracts, loop_rules=rules,
-                     clauses=cl, replay=replay_lu(3, 3, three), timeout_s=60, max_paths=2000)
+                     clauses=cl, replay=replay_lu(3, 3, three), timeout_s=60, max_paths=2000, model_replay=model_replay)
     finally:
         ix.QScal.quotient_hook = None
         ix.QScal.mul_hook = None
